@@ -1335,6 +1335,10 @@ def directly_needed(case: dict, fail: dict) -> bool:
 
 
 def observe(case: dict) -> e2e.Result:
+    from . import c12_shared
+
+    c12_shared.install_cell_recorder()  # data-type objects by identity (Model/SharedCell); below the recorder of the names
+    c12_shared.CELLS.clear()
     install_recorder()
     _RECORDS.clear()
     _LEDGER.clear()
@@ -1408,6 +1412,12 @@ def check_case_co(ck: Check, camp, case: dict, pending: list, correspond: bool =
                     "the method exists with the parameters the model of the import names was transliterated from", _RECORDER_BROKEN[0])
     if correspond and records:
         yield from check_records_co(ck, camp, case, records)
+    if correspond:
+        from . import c12_shared
+
+        cells = list(c12_shared.CELLS)
+        c12_shared.CELLS.clear()
+        yield from c12_shared.check_cells_co(ck, camp, case, cells)
     if correspond and ledger:
         from . import c12_collapse
 
@@ -1899,7 +1909,7 @@ def run(ck: Check) -> None:
     c12_shared.campaign_family(ck, 30 if quick else 1500)
     c12_trees.campaign_setter(ck, 400 if quick else 4000)
     c12_trees.campaign_rich_trees(ck, 150 if quick else 2500)
-    ck.search_hooks += [c12_collapse.search_family, search_from_disagreements, c12_trees.search_rich_trees, search_module_names, search_same_short_name]
+    ck.search_hooks += [c12_shared.search_family, c12_collapse.search_family, search_from_disagreements, c12_trees.search_rich_trees, search_module_names, search_same_short_name]
     known_findings(ck)
 
 
